@@ -27,6 +27,10 @@ runtime residue exercised by the harness (`c33_*` families), not claimed here.
   `read_useless_run` — a run of useless records longer than the budget is rejected exactly at the limit;
   `post_handshake_messages_bounded` — at most `maxUselessRecords` post-handshake messages are accepted
   without an advancing record.
+* `psk_branches_no_panic` — the PSK branches of `processServerHello` / `processHelloRetryRequest` never dereference a
+  nil session: for every number of offered identities, every session state incl. none (caller-supplied identities,
+  `FakePreSharedKeyExtension`) and every `selected_identity`; `psk_without_session_aborts`; `psk_guards_needed`
+  (witnesses: the pre-repair HRR block — D27 — and the seeded reordering C33-4 both panic at one identity, no session).
 * `alloc_bounded` — for every compressed-certificate message `decompressCert` requests at most
   `maxHandshakeCertificateMsg + 4` bytes (full statement; false before the repair of D18, whose witness stays in
   the corpus); `alloc_refused_beyond_limit`, `decompress_alloc_only_if_advertised`; `decompress_reads_bounded` — the
@@ -455,6 +459,74 @@ example : decompress [1, 2, 3] ⟨2, 2, []⟩ (some [1, 2]) (fun _ => true) = (.
 example : ccUnmarshal [25, 0, 0, 8, 0, 2, 255, 255, 255, 0, 0, 0] = some ⟨2, 16777215, []⟩ ∧
     decompressAlloc ⟨2, 16777215, []⟩ = .ok none := ⟨by decide, alloc_refused_beyond_limit _ (by decide)⟩
 example : decompressAlloc ⟨2, 262144, []⟩ = .ok (some 262148) := by rw [decompressAlloc_eq]; decide
+
+/-! ## PSK branches: identities without a session -/
+
+/-- **no nil-session dereference in the PSK branches**: for every number of offered identities, every session
+state — *including none at all* (caller-supplied identities) — and every `selected_identity` a server can send,
+`processServerHello` returns or aborts; and for every such state `processHelloRetryRequest`'s PSK block returns or
+aborts. No well-formedness hypothesis: this is exactly the case crypto/tls never sees. -/
+theorem psk_branches_no_panic (st : PskState) (selected : Option Nat) :
+    pskServerHello st selected ≠ .panic ∧ pskHelloRetry st ≠ .panic := by
+  obtain ⟨n, sess⟩ := st
+  constructor
+  · unfold pskServerHello pskServerHelloG
+    cases selected with
+    | none => simp
+    | some i =>
+      simp only
+      split
+      · simp
+      · cases sess with
+        | none => simp
+        | some s =>
+          by_cases h1 : n = 1
+          · subst h1
+            simp only [derefSession, Option.isNone_some, Bool.false_eq_true, or_false, ne_eq, not_true_eq_false,
+              decide_false, Bool.and_false, if_false]
+            split
+            · simp
+            · split <;> simp
+          · simp [derefSession, h1]
+  · unfold pskHelloRetry pskHelloRetryG
+    cases sess with
+    | none => by_cases h : n = 0 <;> simp [h]
+    | some s =>
+      by_cases h : n = 0
+      · simp [h]
+      · simp only [h, if_false, derefSession, Option.isNone_some, Bool.and_false, Bool.false_eq_true]
+        split
+        · simp
+        · split <;> simp
+
+/-- what a hostile `selected_identity` can achieve against identities without a session: nothing but an abort
+(index in range ⇒ internal_error, out of range ⇒ illegal_parameter); and a HelloRetryRequest ⇒ internal_error. -/
+theorem psk_without_session_aborts (n : Nat) (hn : 0 < n) (i : Nat) :
+    pskServerHello ⟨n, none⟩ (some i) = (if i ≥ n then .abort 47 else .abort 80) ∧
+    pskHelloRetry ⟨n, none⟩ = .abort 80 := by
+  constructor
+  · unfold pskServerHello pskServerHelloG
+    simp only
+    split
+    · rfl
+    · simp
+  · unfold pskHelloRetry pskHelloRetryG
+    have : n ≠ 0 := by omega
+    simp [this]
+
+/-- both guards are needed — witnesses with one caller-supplied identity and no session: without the `session ==
+nil` test in the HelloRetryRequest block (the code before the repair of D27) any HRR is a nil dereference; with
+the ServerHello test moved behind the first use of the session (seeded change C33-4) `selected_identity = 0` is. -/
+theorem psk_guards_needed :
+    pskHelloRetryG false ⟨1, none⟩ = .panic ∧ pskServerHelloG false ⟨1, none⟩ (some 0) = .panic ∧
+    pskHelloRetry ⟨1, none⟩ = .abort 80 ∧ pskServerHello ⟨1, none⟩ (some 0) = .abort 80 := by
+  refine ⟨by decide, by decide, by decide, by decide⟩
+
+example : pskServerHello ⟨1, some ⟨true, true⟩⟩ (some 0) = .resume := by decide
+example : pskServerHello ⟨2, some ⟨true, true⟩⟩ (some 1) = .abort 80 := by decide
+example : pskServerHello ⟨1, some ⟨true, false⟩⟩ (some 0) = .abort 47 := by decide
+example : pskServerHello ⟨0, none⟩ (some 0) = .abort 47 := by decide
+example : pskHelloRetry ⟨1, some ⟨true, false⟩⟩ = .dropPsk := by decide
 
 /-! ## non-vacuity: concrete, non-trivial instances of every hypothesis / statement above -/
 
